@@ -59,6 +59,7 @@ type ev struct {
 	Armed int   `json:"armed,omitempty"`  // kIdleWait: a timer was armed when the wait began
 	GapUS int64 `json:"gap_us,omitempty"` // heartbeat max gap over the timed window
 	Tries int   `json:"tries,omitempty"`  // timed calls are repeated (up to 3x) when slow; DurUS is the fastest attempt
+	CtlUS int64 `json:"ctl_us,omitempty"` // after every slow attempt a plain time.Sleep of comparable length is measured on the same goroutine: largest overshoot
 	Late  int   `json:"late,omitempty"`   // kIdleWait: level was not yet 0 after 3x timeout + 200 ms (polled on, up to 10 s)
 }
 
@@ -69,8 +70,11 @@ type caseLog struct {
 	// seq: an idle wait never saw level 0 within 10 s; the rest of the sequence was not run
 	Aborted bool `json:"aborted,omitempty"`
 	// the case did not finish within 30 s (e.g. a lock left held by a panicking call); Evs is then empty
-	Hung bool   `json:"hung,omitempty"`
-	Skip string `json:"skip,omitempty"`
+	// stale mode: attempts / outcomes, and the first attempts in which a Signal was wiped
+	Stale   map[string]int64 `json:"stale,omitempty"`
+	StaleEx []map[string]any `json:"stale_examples,omitempty"`
+	Hung    bool             `json:"hung,omitempty"`
+	Skip    string           `json:"skip,omitempty"`
 	// idle mode: quiescent observation
 	Touched  bool  `json:"touched,omitempty"`
 	FinalLvl int64 `json:"final_lvl,omitempty"`
@@ -126,6 +130,8 @@ func worker(args []string) {
 						done <- runSeq(s)
 					case "lin":
 						done <- runLin(s)
+					case "stale":
+						done <- runStale(s)
 					default:
 						done <- runIdle(s)
 					}
@@ -226,16 +232,24 @@ func runSeq(s caseSpec) (lg caseLog) {
 		}
 	}
 	// timed runs a timed call up to 3 times while it is slower than ok; returns the fastest attempt
-	timed := func(ok func(d time.Duration) bool, f func() error) (best time.Duration, gap time.Duration, err error, tries int) {
+	timed := func(ctl time.Duration, ok func(d time.Duration) bool, f func() error) (best time.Duration, gap time.Duration, err error, tries int, ctlOver time.Duration) {
 		for tries = 1; ; tries++ {
 			t0 := time.Now()
 			e := f()
 			d := time.Since(t0)
 			g := hb.MaxGap(t0, time.Now())
 			if tries == 1 || d < best {
-				best, gap, err = d, g, e
+				best, err = d, e
 			}
-			if ok(d) || tries == 3 {
+			gap = max(gap, g)
+			if ok(d) {
+				return
+			}
+			// control: how late is an ordinary timer of this goroutine right now?
+			c0 := time.Now()
+			time.Sleep(ctl)
+			ctlOver = max(ctlOver, time.Since(c0)-ctl)
+			if tries == 3 {
 				return
 			}
 		}
@@ -277,6 +291,11 @@ func runSeq(s caseSpec) (lg caseLog) {
 		if i < len(forced) {
 			k = forced[i]
 		}
+		if s.Mode == "cancel" && i == 1 {
+			// level 1 has a short delay while the rest of the table is 1-4 s: a plain
+			// Delay that waits for anything but the current level's entry stands out
+			k = 80
+		}
 		var e ev
 		touch := func(f func()) {
 			prevArmed, prevB := armed, touchB
@@ -293,7 +312,7 @@ func runSeq(s caseSpec) (lg caseLog) {
 			}
 		}
 		switch {
-		case s.Mode == "cancel":
+		case s.Mode == "cancel" && i != 1:
 			// climb to a level with a long delay, then Delay under a context that ends early
 			if i%3 != 2 {
 				e.K = kSignal
@@ -312,7 +331,8 @@ func runSeq(s caseSpec) (lg caseLog) {
 			}
 			d0 := th.GetDelay()
 			e.ValNS = int64(d0)
-			best, gap, err, tries := timed(func(d time.Duration) bool { return d <= d0/2+100*time.Millisecond }, func() error {
+			ctl := time.Duration(max(e.CanUS, 1000)) * time.Microsecond
+			best, gap, err, tries, over := timed(ctl, func(d time.Duration) bool { return d <= d0/2+100*time.Millisecond }, func() error {
 				var ctx context.Context
 				var cancel context.CancelFunc
 				switch how {
@@ -328,7 +348,7 @@ func runSeq(s caseSpec) (lg caseLog) {
 				defer cancel()
 				return th.Delay(ctx)
 			})
-			e.DurUS, e.GapUS, e.Tries = best.Microseconds(), gap.Microseconds(), tries
+			e.DurUS, e.GapUS, e.Tries, e.CtlUS = best.Microseconds(), gap.Microseconds(), tries, over.Microseconds()
 			if err != nil {
 				e.Err = 1
 			}
@@ -360,8 +380,8 @@ func runSeq(s caseSpec) (lg caseLog) {
 		case k < 87:
 			e.K = kDelay
 			d0 := th.GetDelay()
-			best, gap, err, tries := timed(func(d time.Duration) bool { return d <= 3*d0+100*time.Millisecond }, func() error { return th.Delay(context.Background()) })
-			e.DurUS, e.GapUS, e.Tries = best.Microseconds(), gap.Microseconds(), tries
+			best, gap, err, tries, over := timed(max(d0, time.Millisecond), func(d time.Duration) bool { return d <= 3*d0+100*time.Millisecond }, func() error { return th.Delay(context.Background()) })
+			e.DurUS, e.GapUS, e.Tries, e.CtlUS = best.Microseconds(), gap.Microseconds(), tries, over.Microseconds()
 			if err != nil {
 				e.Err = 1
 			}
@@ -551,5 +571,56 @@ func runIdle(s caseSpec) (lg caseLog) {
 	}
 	lg.FinalLvl = int64(th.Level())
 	lg.FinalGap = hb.MaxGap(t0, time.Now()).Microseconds()
+	return lg
+}
+
+// runStale aims Signal calls at the moment the idle timer (armed by the previous
+// Signal) is due: Signal, Signal, spin until timeout +/- 100 us, Signal, then
+// read the level at once and again an eighth of the timeout later. What may
+// happen by the property: the idle reset lands before the third Signal (level 1
+// afterwards) or has not happened (level 3). After the third Signal has returned
+// the level may not fall to 0 before a whole timeout has passed again; a reading
+// of 0 taken (certainly) less than half a timeout after the third Signal was
+// called means that Signal was wiped.
+func runStale(s caseSpec) (lg caseLog) {
+	defer func() {
+		if p := recover(); p != nil {
+			lg.Panic = notePanic(s.No, p)
+		}
+	}()
+	idle := time.Duration(s.IdleMS) * time.Millisecond
+	lg.Stale = map[string]int64{}
+	for i := 0; i < s.Ops; i++ {
+		th := mkThrottler(s)
+		th.Signal()
+		t0 := time.Now()
+		th.Signal()
+		off := time.Duration(i%200-100) * time.Microsecond
+		for time.Since(t0) < idle+off {
+		}
+		t1 := time.Now()
+		th.Signal()
+		l0 := int64(th.Level())
+		l0OK := time.Since(t1) < idle/2
+		for time.Since(t1) < idle/8 {
+		}
+		l1 := int64(th.Level())
+		l1OK := time.Since(t1) < idle/2
+		th.Reset()
+		lg.Stale["attempts"]++
+		switch {
+		case !l0OK:
+			lg.Stale["too_slow_no_verdict"]++
+		case l0 == 0 || (l1OK && l1 == 0):
+			lg.Stale["signal_wiped"]++
+			if len(lg.StaleEx) < 3 {
+				lg.StaleEx = append(lg.StaleEx, map[string]any{"attempt": i, "third_signal_offset_from_timeout_us": off.Microseconds(), "level_right_after_signal": l0, "level_an_eighth_timeout_later": l1, "idle_ms": s.IdleMS})
+			}
+		case l0 == 1:
+			lg.Stale["reset_before_third_signal"]++
+		default:
+			lg.Stale["no_reset_yet"]++
+		}
+	}
 	return lg
 }
